@@ -30,10 +30,10 @@ def hint_pool(tier, seed):
         # every leaf, every unary family over 4 leaves, a spread of binaries
         keep = []
         for i, (name, h) in enumerate(out):
-            if '[' not in name or any(name.endswith(f'[{l}]') for l in ('int', 'str', 'UA', 'Lit1', 'bool')) \
+            if '[' not in name or any(name.endswith(f'[{l}]') for l in ('int', 'str', 'UA', 'Lit1', 'bool', 'object', 'TU', 'TB')) \
                     or (',' in name and i % 5 == 0):
                 keep.append((name, h))
-        out = keep[:170]
+        out = keep[:230]
     else:
         out = out[:420] + grammar.hints_depth2_curated()[::9]
     return out
